@@ -637,6 +637,13 @@ void gen_c07(Gen &g) {
       cfg.n_lo = 81;
       cfg.n_hi = 400;
     }
+    if (r.chance(1, 10)) {
+      // caller buffers that end at or just behind a page multiple of their own length (the library's own mappings are
+      // page-granular, a caller's buffer is not): n = 4096 q - 25 .. 4096 q + 40, offsets mostly in the last bytes
+      long q = r.range(1, 3);
+      cfg.n_lo = 4096 * q - 25;
+      cfg.n_hi = 4096 * q + 40;
+    }
     Task t;
     gen_history_task(g, t, cfg);
     g.p.tasks.push_back(t);
@@ -1138,6 +1145,59 @@ void gen_c08(Gen &g) {
   Rng &r = g.r;
   Plan &p = g.p;
   p.world.mem_policy = (int)r.below(3);
+  if (p.variant == "giant") {
+    // "programs of any length": tens of megabytes of code on a library-managed instance - thousands of growth steps, sizes
+    // beyond 2^24 and 2^25 bytes - in one to three calls (the twin comparison after a call is linear in the code),
+    // plain or counting, then executed.  Long instructions only, to keep the number of lines down.
+    Task t;
+    static const long marks[] = {16L << 20, 16L << 20, 24L << 20, 32L << 20};
+    long target = marks[r.below(4)] + r.range(-30, 300000);
+    Op cr = mk_create(g, 0, -1);
+    cr.twin = true;
+    cr.k = target + 400000;
+    t.ops.push_back(cr);
+    p.world.step_budget = 400000000000L;
+    p.world.max_anon = 40L << 20;
+    p.world.mem_policy = 0;  // in place by default: every move takes another 40 MiB of the arena's address space; the moves are placed below
+    std::vector<std::string> pool;
+    for (int L = 10; L <= 11; L++)
+      for (int idx : corpus_by_len(L))
+        if ((corpus_all()[idx].flags & CF_SAFE) && !(corpus_all()[idx].flags & (CF_RAX | CF_RET))) pool.push_back(line_text(idx));
+    std::vector<std::string> prog;
+    const int o = opt_index(2, 1, 1);
+    long len = 0;
+    while (!pool.empty() && len + 40 < target) {
+      const std::string &l = r.pick(pool);
+      prog.push_back(l);
+      len += line_len(l, o);
+    }
+    prog.push_back(line_text(r.pick(corpus_rax())));
+    prog.push_back(line_text(corpus_ret()));
+    const bool counting = r.chance(1, 3);
+    size_t parts = 1 + r.below(3), at = 0;
+    for (size_t q = 0; q < parts; q++) {
+      size_t end = q + 1 == parts ? prog.size() : at + (prog.size() - at) / (parts - q) + r.below(1000);
+      end = std::min(end, prog.size());
+      Op a = g.mk(counting ? OP_COUNT : OP_ASM, 0);
+      a.c = counting ? r.range(2, 64) : 0;
+      a.lines.assign(prog.begin() + at, prog.begin() + end);
+      // a dozen of this call's growth steps move the mapping (early ones, late ones, and the ones around 2^24 bytes)
+      long steps = (long)(end - at) * 10 / lib_geometry().step;
+      for (int m = 0; m < 12 && steps > 0; m++) {
+        EnvAns e;
+        e.call = K_MREMAP;
+        e.nth = (int)(m < 3 ? r.range(0, 3) : m < 6 ? steps - 1 - r.range(0, 40) : r.range(0, steps));
+        e.ans = ANS_MOVE;
+        if (e.nth >= 0) a.env.push_back(e);
+      }
+      t.ops.push_back(a);
+      at = end;
+    }
+    t.ops.push_back(g.mk(OP_EXEC, 0));
+    t.ops.push_back(g.mk(OP_DESTROY, 0));
+    p.tasks.push_back(t);
+    return;
+  }
   Task t;
   Op cr = mk_create(g, 0, -1);
   cr.twin = true;
